@@ -183,6 +183,11 @@ fn explore(ctx: &Ctx) -> Outcome {
     let mut rest: Vec<LzInput> = lzfam::structure_grid(ctx.tier);
     let grid_n = rest.len();
     rest.extend(lzfam::header_boundaries(ctx.tier).into_iter().filter(|i| !unsafe_inputs.contains(&i.data)));
+    // single repeats longer than the largest LZ11 length (65 808): the compressor must split them
+    for n in [65_808usize + 2, 65_808 + 3, 70_000, 140_000] {
+        rest.push(LzInput { family: "header", desc: format!("zeros n={}", n), data: vec![0u8; n] });
+        rest.push(LzInput { family: "header", desc: format!("period-4 after a prefix n={}", n), data: (0..n).map(|i| if i < 40 { i as u8 } else { (i % 4) as u8 + 200 }).collect() });
+    }
     let t = rest
         .par_iter()
         .fold(Tally::new, |mut t, inp| {
